@@ -273,6 +273,44 @@ def forger_family(run, h, pts, batch, rng, M, M2, tok, old, st, nonce, amt, ctx)
             attempt(run, h, pts, batch, rng, M, M2, tok, old, true_new, nonce, amt, ctx, name, dev, strat)
     compensating_family(run, h, pts, batch, rng, M, tok, old, true_new, nonce, amt, ctx)
     small_order_token(run, h, pts, rng, M, tok, old, true_new, nonce, amt, ctx)
+    degenerate_true_statements(run, h, pts, batch, rng, M, tok, old, true_new, nonce, amt, ctx)
+
+
+def degenerate_true_statements(run, h, pts, batch, rng, M, tok, old, true_new, nonce, amt, ctx):
+    """the other direction of 'accepts exactly': proofs of TRUE statements, built with the honest algorithm from scripted values
+    that make response scalars vanish (a new revocation lock / nonce equal to 0 with commitment scalar 0; blinding factors 0
+    with commitment scalars 0; digit commitment scalars 0 for a zero balance). The verifier's equations hold, so they must be
+    accepted - a verifier that treats a zero response differently (skips it, shifts the others) computes another relation."""
+    variants = [("new_lock_zero", {2: 0}, {"klock": 0}), ("new_nonce_zero", {1: 0}, {"knn": 0}),
+                ("state_blinding_zero", {}, {"bfs": 0, "kbfs": 0}), ("close_blinding_zero", {}, {"bfc": 0, "kbfc": 0}),
+                ("lock_and_nonce_zero", {1: 0, 2: 0}, {"klock": 0, "knn": 0})]
+    for nm, slots, draws in variants:
+        new = list(true_new)
+        for k, v in slots.items():
+            new[k] = v
+        newc = [new[0], CLOSE, new[2], new[3], new[4]]
+        d = rand_pay_draws(rng)
+        d.update(draws)
+        if new[4] == 0:
+            d["dsm"] = [(x[0], x[1], 0, x[3]) for x in d["dsm"]]
+        dig = ((digits(new[3] % 2 ** 63),) * 2, (digits(new[4] % 2 ** 63),) * 2)
+        h.begin()
+        r0 = merchant_allow(h, M, amt, nonce, pay_wire(pts, build_pay(M, tok, old, new, newc, old[2], dig[0], dig[1], d, 1)), ctx, u=rand_nz(rng))
+        if r0["chal"] is None:
+            h.end()
+            continue
+        final = build_pay(M, tok, old, new, newc, old[2], dig[0], dig[1], d, r0["chal"]["c"])
+        r1 = merchant_allow(h, M, amt, nonce, pay_wire(pts, final), ctx, u=rand_nz(rng))
+        case = {"op": "true_statement", "variant": nm, "old": old, "new": new, "close": newc, "accepted": r1["ok"], "script": h.end()}
+        run.case(case)
+        run.count("degenerate true statement " + nm)
+        run.check_monitor("true_statement_with_vanishing_responses_accepted", r1["ok"], case)
+        if r1["chal"] is None:
+            continue
+
+        def cmp(r, case=case, ok=r1["ok"]):
+            run.check_corr("corr.C02.pay_verify", bool(r[0]) == ok, dict(case, model=r[0]))
+        batch.add("r_pay_verify pk0 rp0 %s %s %s %s %s %s" % (zlit(M.hr), zlit(M.gr), zlit(nonce), zlit(amt), coq_pproof(final), zlit(r1["chal"]["c"])), cmp)
 
 
 def compensating_family(run, h, pts, batch, rng, M, tok, old, true_new, nonce, amt, ctx):
